@@ -61,6 +61,14 @@ def scan(path):
                     m = re.fullmatch(r"(?:.*?[;{}]\s*)?static\s+(?!const\b|inline\b|constexpr\b)([A-Za-z_][\w:<>,\s]*?[\s\*&]+)(\w+)\s*(\[[^\]]*\])?\s*(=.*)?", s)
                     if m and "(" not in m.group(1) and not re.search(r"\bconst\b", m.group(1)):
                         stat.append((m.group(2), os.path.basename(path)))
+                    else:
+                        # a const static whose initialiser calls a function is initialised once, at run time, by whichever thread
+                        # gets there first, and then shared by all threads (e.g. a cached active_stack()): state all the same
+                        m2 = re.fullmatch(r"(?:.*?[;{}]\s*)?static\s+([A-Za-z_][\w:<>,\s\*&]*?[\s\*&]+)(\w+)\s*=\s*(.*)", s)
+                        if m2 and "(" not in m2.group(1) and re.search(r"\bconst\b", m2.group(1)):
+                            init = re.sub(r"\bsizeof\s*\([^()]*\)", "0", m2.group(3))
+                            if re.search(r"[A-Za-z_]\w*\s*(?:<[^<>]*>)?\s*\(", init):
+                                stat.append((m2.group(2), os.path.basename(path)))
             stmt = ""
         else:
             stmt += c
